@@ -260,4 +260,57 @@ example : EntriesLeMax ⟨1, [([1], ⟨[2], 1, .set⟩)], 1, 0⟩ := by
   · injection h with h; subst h; decide
   · cases h
 
+/-- After `setVersionedValue key u` the key holds a version at least `u.version`. -/
+theorem svv_holds (s : NodeState) (key : Bytes) (u : VV) :
+    ∃ v', AL.lookup key (s.setVersionedValue key u).1.kvs = some v' ∧ u.version ≤ v'.version := by
+  rw [svv_lookup]
+  simp only [if_true]
+  cases AL.lookup key s.kvs with
+  | none => exact ⟨u, rfl, Nat.le_refl _⟩
+  | some old =>
+    simp only
+    split
+    · rename_i h; exact ⟨old, rfl, h⟩
+    · exact ⟨u, rfl, Nat.le_refl _⟩
+
+/-- **C04 (no shadowing).** Every key-value of the delta that is new to the copy — above the version
+floor and not an already collected tombstone — ends up stored at that version or a newer one,
+whatever else the delta contains (the same key again, at any version, in any order). -/
+theorem applyKvs_new_kv_kept (cm now : Nat) (kvs : List KVM) :
+    ∀ (s : NodeState) (kv : KVM), kv ∈ kvs → cm < kv.version →
+      ¬ (kv.status.scheduledForDeletion ∧ kv.version ≤ s.lastGc) →
+      ∃ v', AL.lookup kv.key (applyKvs cm now s kvs).1.kvs = some v' ∧ kv.version ≤ v'.version := by
+  induction kvs with
+  | nil => intro s kv h; cases h
+  | cons a rest ih =>
+    intro s kv hmem hnew hngc
+    simp only [applyKvs]
+    rcases List.mem_cons.1 hmem with e | hin
+    · subst e
+      rw [if_neg (by omega), if_neg hngc]
+      simp only
+      obtain ⟨v1, h1, hle1⟩ := svv_holds s kv.key ⟨kv.value, kv.version, kv.status.intoStatus now⟩
+      obtain ⟨v2, h2, hle2⟩ := applyKvs_version_mono cm now _ rest kv.key v1 h1
+      exact ⟨v2, h2, by simp only at hle1; omega⟩
+    · split
+      · exact ih s kv hin hnew hngc
+      · split
+        · exact ih s kv hin hnew hngc
+        · simp only
+          apply ih _ kv hin hnew
+          rw [svv_gc]; exact hngc
+
+/-- **C04 (no shadowing, delta level).** After a non-rejected `apply_delta`, every key-value of the
+delta above the version floor of the copy the loop started from (the copy itself, or the wiped copy
+after a reset) that is not an already collected tombstone is stored at its version or a newer one. -/
+theorem C04_new_kv_kept (s : NodeState) (nd : NodeDelta) (now : Nat) (s' : NodeState) (st : DeltaStatus)
+    (evs : List Event) (h : s.applyDelta nd now = .ok (s', st, evs)) (hst : st ≠ .reject)
+    (kv : KVM) (hkv : kv ∈ nd.kvs) (hnew : (s.applyBase nd).maxVersion < kv.version)
+    (hngc : ¬ (kv.status.scheduledForDeletion ∧ kv.version ≤ (s.applyBase nd).lastGc)) :
+    ∃ v', AL.lookup kv.key s'.kvs = some v' ∧ kv.version ≤ v'.version := by
+  have hs := applyDelta_status h
+  obtain ⟨h1, _⟩ := applyDelta_ok_of_not_reject h (by rw [← hs]; exact hst)
+  rw [h1]
+  exact applyKvs_new_kv_kept _ now nd.kvs (s.applyBase nd) kv hkv hnew hngc
+
 end Chitchat
